@@ -45,17 +45,17 @@ type c02Env struct {
 	order  []string // token labels in creation order
 	ntok   int
 	// identity set-up (lazily created)
-	roleCIDR bool
-	ents     map[string]string // entity label -> id
-	entOff   map[string]bool   // entity label -> currently disabled
-	short    map[string]time.Time // tokens created with a real 2 s TTL -> creation time
+	roleCIDR  bool
+	ents      map[string]string    // entity label -> id
+	entOff    map[string]bool      // entity label -> currently disabled
+	short     map[string]time.Time // tokens created with a real 2 s TTL -> creation time
 	nextShort bool
-	polRules map[string]string   // policy name -> rules as written (generator bookkeeping only)
-	tokPols  map[string][]string // token label -> policy names
-	dead     map[string]bool     // tokens the generator revoked or expired (bias only, never used for the verdict)
-	cross    bool                 // with ns: policies and tokens live in the ROOT namespace (rules name "<ns>/…"), mounts and requests in ns
-	ns       *namespace.Namespace // non-nil: the whole case (mounts, policies, tokens, requests) lives in this child namespace
-	debug    bool
+	polRules  map[string]string    // policy name -> rules as written (generator bookkeeping only)
+	tokPols   map[string][]string  // token label -> policy names
+	dead      map[string]bool      // tokens the generator revoked or expired (bias only, never used for the verdict)
+	cross     bool                 // with ns: policies and tokens live in the ROOT namespace (rules name "<ns>/…"), mounts and requests in ns
+	ns        *namespace.Namespace // non-nil: the whole case (mounts, policies, tokens, requests) lives in this child namespace
+	debug     bool
 }
 
 func c02Class(resp *logical.Response, err error) string {
@@ -232,6 +232,14 @@ func (e *c02Env) ensureEntity(label string) {
 
 // tokNew: kind service | batch | cidr | ent:<entity label>
 func (e *c02Env) tokNew(label, pols string, numUses int, kind string) {
+	if e.cross && e.ns != nil {
+		e.inRoot(func() { e.tokNew0(label, pols, numUses, kind) }) // tokens and identities of a CROSS case live in the root namespace
+		return
+	}
+	e.tokNew0(label, pols, numUses, kind)
+}
+
+func (e *c02Env) tokNew0(label, pols string, numUses int, kind string) {
 	data := map[string]any{"ttl": "1h", "no_default_policy": true, "no_parent": true}
 	if pols != "-" {
 		data["policies"] = strings.Split(pols, ",")
@@ -285,6 +293,14 @@ func (e *c02Env) tokNew(label, pols string, numUses int, kind string) {
 }
 
 func (e *c02Env) tokRevoke(label string) {
+	if e.cross && e.ns != nil {
+		e.inRoot(func() { e.tokRevoke0(label) }) // tokens and identities of a CROSS case live in the root namespace
+		return
+	}
+	e.tokRevoke0(label)
+}
+
+func (e *c02Env) tokRevoke0(label string) {
 	e.adm(logical.UpdateOperation, "auth/token/revoke", map[string]any{"token": e.toks[label].client})
 	e.dead[label] = true
 	e.out.Op("ok", "tok-revoke", label)
@@ -294,6 +310,14 @@ func (e *c02Env) tokRevoke(label string) {
 // yet": the lease entry's expiry is moved into the past in storage and in the manager's in-memory copy and the
 // revocation timer is stopped. Only lookupInternal's own expiry comparison stands between this token and a request.
 func (e *c02Env) tokExpire(label string) {
+	if e.cross && e.ns != nil {
+		e.inRoot(func() { e.tokExpire0(label) }) // tokens and identities of a CROSS case live in the root namespace
+		return
+	}
+	e.tokExpire0(label)
+}
+
+func (e *c02Env) tokExpire0(label string) {
 	tk := e.toks[label]
 	e.dead[label] = true
 	if t0, ok := e.short[label]; ok {
@@ -353,6 +377,14 @@ func (e *c02Env) tokExpire(label string) {
 }
 
 func (e *c02Env) entDisable(label string, disabled bool) {
+	if e.cross && e.ns != nil {
+		e.inRoot(func() { e.entDisable0(label, disabled) }) // tokens and identities of a CROSS case live in the root namespace
+		return
+	}
+	e.entDisable0(label, disabled)
+}
+
+func (e *c02Env) entDisable0(label string, disabled bool) {
 	id := e.ents[label]
 	e.adm(logical.UpdateOperation, "identity/entity/id/"+id, map[string]any{"disabled": disabled})
 	e.entOff[label] = disabled
@@ -607,9 +639,10 @@ func c02Case(t *testing.T, out *vh.Out, rng *vh.Rand, ci, nops int) {
 	e := c02NewEnv(t, out, rng)
 	e.debug = vh.EnvInt("VERIF_C02_DEBUG", 0) != 0
 	defer func() { _ = e.c.Shutdown() }()
-	if ci%3 == 1 {
+	if ci%3 >= 1 {
 		e.enterNS("c02ns")
 	}
+	e.cross = ci%3 == 2 // policies, tokens and identities in the ROOT namespace (rules name "c02ns/…"), mounts and requests in c02ns
 	e.mount("rec/")
 	if rng.Chance(50) {
 		e.mount("deep/er/")
@@ -690,32 +723,34 @@ func c02Case(t *testing.T, out *vh.Out, rng *vh.Rand, ci, nops int) {
 		e.tokExpire(l)
 		e.req("valid:"+l, "read", e.mounts[0]+"data/a", "10.1.2.3")
 		e.req("valid:"+l, "update", e.mounts[0]+"data/b", "10.1.2.3")
-		// (b)
-		e.polPut("pc", "auth/token/create=update;"+e.mounts[0]+"*=read+update")
-		e.ntok++
-		par := fmt.Sprintf("t%d", e.ntok)
-		e.tokNew(par, "pc", 0, "service")
-		e.ntok++
-		ch := fmt.Sprintf("t%d", e.ntok)
-		creq := &logical.Request{Operation: logical.UpdateOperation, Path: "auth/token/create", ClientToken: e.toks[par].client,
-			Data:       map[string]any{"type": "batch", "ttl": "1h", "policies": []string{"pc"}, "no_default_policy": true},
-			Connection: &logical.Connection{RemoteAddr: "127.0.0.1"}}
-		cresp, cerr := e.c.HandleRequest(e.ctx(), creq)
-		if cerr != nil || cresp == nil || cresp.Auth == nil {
-			e.t.Fatalf("batch child of %s: %v %v", par, cerr, cresp)
+		// (b) (not in a CROSS case: the parent's policy would have to name the root namespace's token mount)
+		if !e.cross {
+			e.polPut("pc", "auth/token/create=update;"+e.mounts[0]+"*=read+update")
+			e.ntok++
+			par := fmt.Sprintf("t%d", e.ntok)
+			e.tokNew(par, "pc", 0, "service")
+			e.ntok++
+			ch := fmt.Sprintf("t%d", e.ntok)
+			creq := &logical.Request{Operation: logical.UpdateOperation, Path: "auth/token/create", ClientToken: e.toks[par].client,
+				Data:       map[string]any{"type": "batch", "ttl": "1h", "policies": []string{"pc"}, "no_default_policy": true},
+				Connection: &logical.Connection{RemoteAddr: "127.0.0.1"}}
+			cresp, cerr := e.c.HandleRequest(e.ctx(), creq)
+			if cerr != nil || cresp == nil || cresp.Auth == nil {
+				e.t.Fatalf("batch child of %s: %v %v", par, cerr, cresp)
+			}
+			e.toks[ch] = &c02Tok{label: ch, client: cresp.Auth.ClientToken, kind: "batch"}
+			e.order = append(e.order, ch)
+			e.tokPols[ch] = []string{"pc"}
+			e.out.Op("ok", "tok-new", ch, "pc", "0", "batch")
+			e.req("valid:"+ch, "read", e.mounts[0]+"data/a", "10.1.2.3")
+			e.tokRevoke(par)
+			// the batch child is no longer a live token: recorded for the model as its revocation
+			e.dead[ch] = true
+			e.out.Op("ok", "tok-revoke", ch)
+			e.req("valid:"+ch, "read", e.mounts[0]+"data/a", "10.1.2.3")
+			e.req("valid:"+ch, "update", e.mounts[0]+"data/b", "10.1.2.3")
+			e.req("valid:"+par, "read", e.mounts[0]+"data/a", "10.1.2.3")
 		}
-		e.toks[ch] = &c02Tok{label: ch, client: cresp.Auth.ClientToken, kind: "batch"}
-		e.order = append(e.order, ch)
-		e.tokPols[ch] = []string{"pc"}
-		e.out.Op("ok", "tok-new", ch, "pc", "0", "batch")
-		e.req("valid:"+ch, "read", e.mounts[0]+"data/a", "10.1.2.3")
-		e.tokRevoke(par)
-		// the batch child is no longer a live token: recorded for the model as its revocation
-		e.dead[ch] = true
-		e.out.Op("ok", "tok-revoke", ch)
-		e.req("valid:"+ch, "read", e.mounts[0]+"data/a", "10.1.2.3")
-		e.req("valid:"+ch, "update", e.mounts[0]+"data/b", "10.1.2.3")
-		e.req("valid:"+par, "read", e.mounts[0]+"data/a", "10.1.2.3")
 	}
 	newTok()
 	newTok()
@@ -948,7 +983,7 @@ func TestVerifC02Special(t *testing.T) {
 		n = 600
 	}
 	fixed := [][2][]string{
-		{{"a/*", "a/b"}, {"a/*", "a/b"}},           // the shadowing shape of rootPath_shadow_cex
+		{{"a/*", "a/b"}, {"a/*", "a/b"}},            // the shadowing shape of rootPath_shadow_cex
 		{{"a/b", "a/*"}, {"a/+/c", "a/b/*", "a/b"}}, // insertion order must not matter; wildcard fall-through after an exact miss
 		{{"a", "a/*", "ab*"}, {"+", "a/+/*"}},
 		{{"*"}, {"+/+"}},
